@@ -1,6 +1,7 @@
 import VirtioVerif.Model.Proto
 import VirtioVerif.Model.Layout
 import VirtioVerif.Model.Console
+import VirtioVerif.Model.EventQueues
 /-!
 Native line-protocol driver over all models: one request line in, one reply line out.
 `case …` lines reset per-case state and are echoed as `case`.
@@ -10,6 +11,7 @@ open VirtioVerif
 structure World where
   dummy : Unit := ()
   con : Console.PState := Console.PState.empty
+  evq : EventQueues.PState := EventQueues.PState.empty
 
 def World.fresh : World := {}
 
@@ -17,6 +19,7 @@ def step (w : World) (line : String) : World × String :=
   match line.trimAscii.toString.splitOn " " with
   | "case" :: _ => (World.fresh, "case")
   | "layout" :: op :: rest => (w, Layout.handle op (Proto.parseArgs rest))
+  | "evq" :: op :: rest => let (c, o) := EventQueues.handle w.evq op (Proto.parseArgs rest); ({ w with evq := c }, o)
   | "con" :: op :: rest => let (c, o) := Console.handle w.con op (Proto.parseArgs rest); ({ w with con := c }, o)
   | _ => (w, "bad-op")
 
